@@ -3,6 +3,10 @@
 #![allow(unused_imports)]
 use super::*;
 
+// field-level constructors/observers used by the source.rs / system.rs harnesses (see common.rs FromParts/Parts)
+#[path = "source_parts.rs"]
+mod source_parts;
+
 // ---------------------------------------------------------------- RemoteBloomFilter
 
 // Type invariant established by `new` and preserved by every method (checked below):
